@@ -67,8 +67,9 @@ func NewVerifSession(c VerifSessionConfig, app Application, store MessageStore, 
 	s.EnableLastMsgSeqNumProcessed = c.EnableLastMsgSeqNumProcessed
 	s.InChanCapacity = c.InChanCapacity
 	s.DefaultApplVerID = c.DefaultApplVerID
-	s.LogonTimeout = time.Hour
-	s.LogoutTimeout = time.Hour
+	// the timers only post into sessionEvent (buffered, never read here); short delays let finished sessions be collected
+	s.LogonTimeout = 20 * time.Millisecond
+	s.LogoutTimeout = 20 * time.Millisecond
 	s.timestampPrecision = Millis
 	s.State = latentState{}
 	return &VerifSession{s: s}
@@ -82,7 +83,7 @@ func (v *VerifSession) Connect() {
 	}
 	capIn := v.s.InChanCapacity
 	v.in = make(chan fixIn, capIn)
-	v.out = make(chan []byte, 100000)
+	v.out = make(chan []byte, 4096)
 	v.s.onAdmin(connect{messageIn: v.in, messageOut: v.out})
 }
 
